@@ -15,6 +15,32 @@ open Atree Gen ATree MetaSlab
 
 def emptyCtx : Ctx := { ctr := 0, eff := [], created := [] }
 
+/-- which function the model's `mergeOrRebalanceChildSlab` ran for the underflowing child `child'` at position `k`
+    of `m1`, read off ITS result: a child fewer = merge (which id disappeared), else the sibling that got smaller -/
+def eventFn (T : Nat) {d : Nat} (m1 : MetaSlab (ATree d)) (child' : ATree d) (k u : Nat) : String :=
+  let hasL := decide (k > 0)
+  let hasR := decide (k + 1 < m1.childHdrs.length)
+  let szAt (m : MetaSlab (ATree d)) (i : Nat) : Nat := ((m.childHdrs[i]?).map (·.size)).getD 0
+  match m1.mergeOrRebalanceChildSlab T child' k u emptyCtx with
+  | .error _ => "model-error"
+  | .ok (m2, _) =>
+    if m2.childHdrs.length < m1.childHdrs.length then
+      (if m2.childHdrs.any (fun h => decide (h.id = (hdr d child').id)) then "child.Merge(right)" else "left.Merge(child)")
+    else if hasR && decide (szAt m2 (k + 1) < szAt m1 (k + 1)) then "child.BorrowFromRight(right)"
+    else if hasL && decide (szAt m2 (k - 1) < szAt m1 (k - 1)) then "left.LendToRight(child)"
+    else "unexplained-rebalance"
+
+/-- DATA-slab child underflowing by `u` next to a single sibling whose size minus `u` is exactly `minThreshold`
+    (`ArrayDataSlab.CanLendToLeft/Right`: `size - need < minThreshold` decided on the boundary) -/
+def dataBoundaryTags (T : Nat) {d : Nat} (m1 : MetaSlab (ATree d)) (child' : ATree d) (k u : Nat) : List String :=
+  let leftSib : Option (ATree d) := if k > 0 then m1.children[k - 1]? else none
+  let rightSib : Option (ATree d) := if k + 1 < m1.childHdrs.length then m1.children[k + 1]? else none
+  let atB (s : ATree d) : Bool := decide ((hdr d s).size = minThr T + u)
+  match leftSib, rightSib with
+  | none, some r => if atB r then [s!"data:right.CanLendToLeft@boundary -> {eventFn T m1 child' k u}"] else []
+  | some l, none => if atB l then [s!"data:left.CanLendToRight@boundary -> {eventFn T m1 child' k u}"] else []
+  | _, _ => []
+
 /-- the index-slab child `child'` at position `k` of `m1` underflows by `u`: configuration and function tags -/
 def eventTags (T : Nat) {d : Nat} (m1 : MetaSlab (ATree d)) (child' : ATree d) (k u : Nat) : List String :=
   let leftSib : Option (ATree d) := if k > 0 then m1.children[k - 1]? else none
@@ -41,16 +67,7 @@ def eventTags (T : Nat) {d : Nat} (m1 : MetaSlab (ATree d)) (child' : ATree d) (
       else ""
     | _, _ => ""
   let cfg := s!"siblings={sib} can-lend={lend}{bigger}"
-  let szAt (m : MetaSlab (ATree d)) (i : Nat) : Nat := ((m.childHdrs[i]?).map (·.size)).getD 0
-  let fn : String :=
-    match m1.mergeOrRebalanceChildSlab T child' k u emptyCtx with
-    | .error _ => "model-error"
-    | .ok (m2, _) =>
-      if m2.childHdrs.length < m1.childHdrs.length then
-        (if m2.childHdrs.any (fun h => decide (h.id = (hdr d child').id)) then "child.Merge(right)" else "left.Merge(child)")
-      else if rightSib.isSome && decide (szAt m2 (k + 1) < szAt m1 (k + 1)) then "child.BorrowFromRight(right)"
-      else if leftSib.isSome && decide (szAt m2 (k - 1) < szAt m1 (k - 1)) then "left.LendToRight(child)"
-      else "unexplained-rebalance"
+  let fn := eventFn T m1 child' k u
   lTags ++ rTags ++ ["fn:" ++ fn, cfg ++ " -> " ++ fn]
 
 /-- tags of the model's `ATree.remove T d t i` (index-slab children only) -/
@@ -64,16 +81,19 @@ def removeTags (T : Nat) : (d : Nat) → ATree d → Nat → List String
       | none => []
       | some child =>
         let below := removeTags T d child adj
-        if d == 0 then below
-        else
-          match ATree.remove T d child adj emptyCtx with
-          | .error _ => below
-          | .ok (_, child', _) =>
-            let m1 : MetaSlab (ATree d) :=
-              { m with hdr := { m.hdr with count := m.hdr.count - 1 },
-                       countSum := bumpFrom k (· - 1) m.countSum,
-                       childHdrs := m.childHdrs.set k (hdr d child'),
-                       children := m.children.set k child' }
+        match ATree.remove T d child adj emptyCtx with
+        | .error _ => below
+        | .ok (_, child', _) =>
+          let m1 : MetaSlab (ATree d) :=
+            { m with hdr := { m.hdr with count := m.hdr.count - 1 },
+                     countSum := bumpFrom k (· - 1) m.countSum,
+                     childHdrs := m.childHdrs.set k (hdr d child'),
+                     children := m.children.set k child' }
+          if d == 0 then
+            match isUnderflow T d child' with
+            | some u => below ++ dataBoundaryTags T m1 child' k u
+            | none => below
+          else
             match isUnderflow T d child' with
             | some u => below ++ eventTags T m1 child' k u
             | none =>
@@ -103,11 +123,14 @@ def insertTags (T : Nat) : (d : Nat) → ATree d → Nat → Elem → List Strin
           else
             match ATree.insert T d child adj e emptyCtx with
             | .error _ => below
-            | .ok (child', _) => if isFull T d child' then below ++ ["fn:index.Split"] else below
+            | .ok (child', _) =>
+              if isFull T d child' then below ++ ["fn:index.Split"]
+              -- an index slab of exactly maxThreshold bytes is NOT split (`size > maxThreshold`)
+              else if (hdr d child').size == maxThr T then below ++ ["fn:IsFull@boundary=false"] else below
 
 /-- all tags of `Arr.remove T a i` with result `a'` (slab levels are `d + 1`) -/
 def arrRemoveTags (T : Nat) (a : Arr) (i : Nat) (a' : Arr) : List String :=
-  let ts := if a.d ≥ 2 then removeTags T a.d a.root i else []
+  let ts := if a.d ≥ 1 then removeTags T a.d a.root i else []
   let promote := if a'.d < a.d then [s!"fn:root-promote:{a.d + 1}->{a'.d + 1}"] else []
   let collapse :=
     if a'.d < a.d && ts.any (fun t => t == "fn:child.Merge(right)" || t == "fn:left.Merge(child)")
